@@ -51,7 +51,7 @@ func (c04) Floor(tier string) int { return 1500 }
 
 // (keys that look like patterns are keys: the entries of b go to the entries of a with the SAME key)
 // (and strings that look like numbers written another way: string keys all the same)
-var c04Keys = []string{"a", "b", "c", "d", "x", "y", "k", "", "a*", "*", "?", "ab", "007", "0x1F", "1_000", "+5", "7"}
+var c04Keys = []string{"a", "b", "c", "d", "x", "y", "k", "", "a*", "*", "?", "ab", "abc", "a_b", "k1", "k10", "007", "0x1F", "1_000", "+5", "7"}
 
 func c04Map(r *rand.Rand, depth int) *ref.V {
 	p := gen.Default()
@@ -120,7 +120,7 @@ func c04Derive(r *rand.Rand, a *ref.V, depth int) *ref.V {
 	r.Shuffle(len(keep), func(i, j int) { keep[i], keep[j] = keep[j], keep[i] })
 	b.M = keep
 	for i := 0; i < r.IntN(3); i++ {
-		k := []string{"n1", "n2", "zz", "n*", "*"}[r.IntN(5)]
+		k := []string{"n1", "n2", "zz", "n*", "*", "n10", "n1_x", "zz_top"}[r.IntN(8)]
 		if _, dup := b.Get(k); !dup {
 			pos := r.IntN(len(b.M) + 1)
 			b.M = append(b.M[:pos:pos], append([]ref.KV{{K: k, V: gen.SimpleValue(r, 2)}}, b.M[pos:]...)...)
@@ -194,6 +194,8 @@ func (p c04) Run(w *mon.Worker, idx int) mon.Result {
 		}
 		if !hasFloat && idx%4 == 3 {
 			inFmt = "json"
+		} else if idx%4 == 1 {
+			inFmt = "yaml-block" // block-style collections (the other YAML cases are written in flow style)
 		}
 	}
 	evalDoc := func(expr string, d *ref.V) (*ref.V, []*ref.V, error) { return evalDocFmt(expr, d, inFmt) }
